@@ -93,7 +93,9 @@ def tlc(d, module, cfg, extra=(), workers=None, timeout=900, javaopts=None, heap
     if javaopts:
         env["JAVA_TOOL_OPTIONS"] = javaopts
     heap = heap or os.environ.get("VERIF_TLC_HEAP") or ("4g" if str(workers) == "1" else "8g")
-    cmd = ["java", "-XX:+UseParallelGC", "-Xmx" + heap, "-Xss64m", "-cp", TLA_CP, "tlc2.TLC",
+    jtmp = os.path.join(d, "jtmp")     # TLC unpacks its standard modules into java.io.tmpdir on every start
+    os.makedirs(jtmp, exist_ok=True)
+    cmd = ["java", "-XX:+UseParallelGC", "-Xmx" + heap, "-Xss64m", "-Djava.io.tmpdir=" + jtmp, "-cp", TLA_CP, "tlc2.TLC",
            "-workers", str(workers or "auto"), "-metadir", os.path.join(d, "meta_" + cfg.replace(".cfg", "")),
            "-config", cfg] + list(extra) + [module]
     rc, out, dt = sh(cmd, cwd=d, env=env, timeout=timeout, check=False)
